@@ -34,7 +34,7 @@ VARIABLES slot,   \* [{"udp","tcp"} -> 0..2]: client whose cookie a wire-born re
           conn,   \* 0..2: client that owns the open TCP connection (0 = none); the driver follows it
           eout    \* what the engine entry returned for the last packet (hidden by the view)
 
-evars == <<cfg, content, cached, scookie, tokens, n, out, slot, txd, conn, eout>>
+evars == <<cfg, content, cached, scookie, tokens, n, sibc, cut, failst, nenv, out, slot, txd, conn, eout>>
 
 AuthOnly == {"nxsig", "nodatasig"}
 Cookied(p) == p.cookie \in {"c8", "valid", "stale"}
@@ -65,7 +65,7 @@ StaleCookie(p, b) ==
 BytesHit(p) ==
   /\ SlotReached(p) /\ p.rd /\ p.ecs = "none"
   /\ ~(content \in LocalContent)
-  /\ Ladder(p, FALSE) = "hit"
+  /\ MsgLadder(p, FALSE) = "hit"
 
 UnstrippedAuth(p) ==
   /\ ~AuthScan
@@ -141,5 +141,5 @@ EngineAgrees ==
 
 ETypeOK == TypeOK /\ slot \in [{"udp", "tcp"} -> 0..2] /\ txd \in BOOLEAN /\ conn \in 0..2
 
-EView == <<cfg, content, cached, scookie, tokens, n, slot, txd, conn>>
+EView == <<cfg, content, cached, scookie, tokens, n, sibc, cut, failst, nenv, slot, txd, conn>>
 =============================================================================
